@@ -10,7 +10,7 @@ RELUTIL = {"pkg": "./pkg/release/util", "files": ["pkg/release/util/h_c08_part.g
 
 REPOPKG = {"pkg": "./pkg/repo", "files": ["pkg/repo/h_c18_index.go"]}
 
-ACTION = {"pkg": "./pkg/action", "files": ["pkg/action/h_common.go", "pkg/action/h_smoke.go", "pkg/action/h_c01_hist.go", "pkg/action/h_c06_dryrun.go", "pkg/action/h_c12_hooks.go", "pkg/action/h_c07_own.go", "pkg/action/h_c14_schema.go", "pkg/action/h_tree.go", "pkg/action/h_c13_reuse.go", "pkg/action/h_c05_order.go"]}
+ACTION = {"pkg": "./pkg/action", "files": ["pkg/action/h_common.go", "pkg/action/h_smoke.go", "pkg/action/h_c01_hist.go", "pkg/action/h_c06_dryrun.go", "pkg/action/h_c12_hooks.go", "pkg/action/h_c07_own.go", "pkg/action/h_c14_schema.go", "pkg/action/h_tree.go", "pkg/action/h_c13_reuse.go", "pkg/action/h_c05_order.go", "pkg/action/h_c09_conc.go"]}
 
 CHARTUTIL = {"pkg": "./pkg/chart/v2/util", "files": ["pkg/chart/v2/util/h_values.go"]}
 
@@ -80,6 +80,10 @@ CHECKS = {
     },
     "C14": {
         "runs": [dict(ACTION, entries=["H14Gate", "H14Deep", "H14Alias"], limits={"max_instrs": 20000000, "max_decisions": 2000})],
+        "bounds": {}, "assumptions": [],
+    },
+    "C09": {
+        "runs": [dict(ACTION, entries=["H09Concurrent"], bounds_quick={"preemptions": 3, "maxhist": 1}, bounds_thorough={"preemptions": 4, "maxhist": 2}, limits={"max_instrs": 20000000, "max_decisions": 2000})],
         "bounds": {}, "assumptions": [],
     },
     "C10": {
